@@ -114,6 +114,17 @@ def crosstalk_sites(w: World, merge_groups: list[set] | None = None, labels: dic
                             per_key.setdefault(k, set()).add(num)
             for k, who in per_key.items():
                 tot = sorted(who | set(wild))
+                if memory_ok and len(tot) >= 2:
+                    seen_mod = set()
+                    kept = []
+                    for n in tot:
+                        m = _RE_MEM.search(w.ents[n].desc or "")
+                        if m:
+                            if m.group(1) in seen_mod:
+                                continue
+                            seen_mod.add(m.group(1))
+                        kept.append(n)
+                    tot = kept
                 if len(tot) >= 2:
                     names = {labels.get(n) for n in tot}
                     if None not in names and any(names <= g for g in merge_groups):
